@@ -34,7 +34,19 @@ def privkey_pubkey(alg, sub):
         r.set('skm', 'encbytes', ex.new_buf(st, z3.Const('ENCBYTES', E.BYTES)))
         r.set('skm', 'chksum', ex.new_buf(st, z3.Const('CHKSUM', E.BYTES)))
         KDFCOPY = E.VObj('pgpy.packet.fields.ECKDF', 'kdfcopy')
+        # the KDF parameters stored in the secret key (any values), their copy, and what the curve table would give by default (other symbols)
+        KH, KC, DH, DC = z3.Ints('kdf_hash_of_this_key kdf_cipher_of_this_key default_kdf_hash_of_the_curve default_kek_cipher_of_the_curve')
+        HAV = sorted(set(repo.enum_members('pgpy.constants.HashAlgorithm').values()))
+        SAV = sorted(set(repo.enum_members('pgpy.constants.SymmetricKeyAlgorithm').values()))
+        st.pc += [z3.Or(*[x == v for v in HAV]) for x in (KH, DH)] + [z3.Or(*[x == v for v in SAV]) for x in (KC, DC)]      # ids of the enumerations
+        for ref in ('kdf', 'kdfcopy'):
+            r.set(ref, '_halg', E.VInt(KH, enum='pgpy.constants.HashAlgorithm'))
+            r.set(ref, '_encalg', E.VInt(KC, enum='pgpy.constants.SymmetricKeyAlgorithm'))
         r.hook('pgpy.packet.fields.ECKDF', '__copy__', scn.mconst(KDFCOPY))
+        for attr, val, enum in (('kdf_halg', DH, 'pgpy.constants.HashAlgorithm'), ('kek_alg', DC, 'pgpy.constants.SymmetricKeyAlgorithm')):
+            h = (lambda val, enum: lambda ex, st, o, a: [(st, E.VInt(val, enum=enum))])(val, enum)
+            h.is_method = False
+            ex.hooks[('ext:curve-oid', attr)] = h
         r.hook('pgpy.packet.fields.ECKDF', '__call__', lambda ex, st, c, a: [(st, E.VObj('pgpy.packet.fields.ECKDF', E.fresh('kdf')))])
         # packet framework (headers) is outside this obligation
         r.hook('pgpy.packet.types.VersionedPacket', '__init__', scn.mconst(E.VNone()))
@@ -77,7 +89,12 @@ def privkey_pubkey(alg, sub):
             if alg in (19, 22, 18):
                 r.oblige(s, 'curve-kept/p%d' % pi, z3.BoolVal(s.heap.get((pkm.ref, 'oid')) is OID))
             if alg == 18:
-                r.oblige(s, 'kdf-parameters-copied/p%d' % pi, z3.BoolVal(s.heap.get((pkm.ref, 'kdf')) is KDFCOPY))
+                tk = s.heap.get((pkm.ref, 'kdf'))
+                ref = ('sym:' + str(z3.simplify(tk.ref))) if isinstance(tk, E.VObj) and z3.is_expr(tk.ref) else getattr(tk, 'ref', None)
+                th, tc = s.heap.get((ref, '_halg')), s.heap.get((ref, '_encalg'))
+                okk = isinstance(tk, E.VObj) and ref != 'kdf' and isinstance(th, E.VInt) and isinstance(tc, E.VInt)
+                r.oblige(s, 'kdf-parameters-are-those-of-this-key(its-own-object,same-hash-and-cipher)/p%d' % pi,
+                         z3.And(z3.BoolVal(bool(okk)), z3.And(th.z == KH, tc.z == KC) if okk else z3.BoolVal(False)))
         return r.result()
     return Scenario(label, cls + '.pubkey', gen, props=('C07', 'C18'))
 
